@@ -1146,6 +1146,51 @@ func call(e *ev) func() (bool, error) {
 			s := 1 + arg(a, 3, 0)%4
 			return decodeWith(e.Api, matrixImage(scaleMatrix(m, s), 4*s), 0, e.H)
 		}
+	case "qrv":
+		// a symbol of a given version and level written by the real encoder (forced version), a few modules flipped, then decoded:
+		// every (version, level) pair reaches the decoder's per-version tables
+		return func() (bool, error) {
+			rng := rand.New(rand.NewSource(int64(arg(a, 2, 0))))
+			n := 1 + rng.Intn(12)
+			txt := make([]byte, n)
+			for i := range txt {
+				txt[i] = "ABCDEFGHIJKLMNOPQRSTUVWXYZ0123456789 abc"[rng.Intn(40)]
+			}
+			code, err := qrenc.Encoder_encode(string(txt), ecLevels[arg(a, 1, 0)&3], map[gozxing.EncodeHintType]interface{}{gozxing.EncodeHintType_QR_VERSION: arg(a, 0, 1)})
+			if err != nil || code == nil {
+				return false, fmt.Errorf("skip: encoder refused version %d: %v", arg(a, 0, 1), err)
+			}
+			bm := code.GetMatrix()
+			m, _ := gozxing.NewBitMatrix(bm.GetWidth(), bm.GetHeight())
+			for y := 0; y < bm.GetHeight(); y++ {
+				for x := 0; x < bm.GetWidth(); x++ {
+					if bm.Get(x, y) == 1 {
+						m.Set(x, y)
+					}
+				}
+			}
+			for k := 0; k < arg(a, 3, 0); k++ {
+				m.Flip(rng.Intn(m.GetWidth()), rng.Intn(m.GetHeight()))
+			}
+			if arg(a, 5, 0) == 1 { // mirrored symbol (transposed matrix)
+				t, _ := gozxing.NewBitMatrix(m.GetHeight(), m.GetWidth())
+				for y := 0; y < m.GetHeight(); y++ {
+					for x := 0; x < m.GetWidth(); x++ {
+						if m.Get(x, y) {
+							t.Set(y, x)
+						}
+					}
+				}
+				m = t
+			}
+			switch e.Api {
+			case "qr.decoder":
+				r, err := qrdec.NewDecoder().Decode(m, hintMap(e.H))
+				return r != nil, err
+			}
+			s := 1 + arg(a, 4, 0)%3
+			return decodeWith(e.Api, matrixImage(scaleMatrix(m, s), 4*s), 0, e.H)
+		}
 	case "cwd":
 		return func() (bool, error) {
 			m, err := dmSymbol(e.B, arg(a, 0, 0) == 1)
@@ -1180,6 +1225,9 @@ func call(e *ev) func() (bool, error) {
 		return func() (bool, error) {
 			q, sc, ht := arg(a, 0, 10), imax(1, arg(a, 1, 1)), imax(1, arg(a, 2, 1))
 			n := 2 * q
+			if t := arg(a, 4, -1); t >= 0 { // trailing quiet zone given separately (0: the row ends with the last bar)
+				n = q + t
+			}
 			for _, r := range e.B {
 				n += r
 			}
